@@ -160,9 +160,15 @@ type c11case struct {
 	Depth int
 	Seq   string   // deepen | repeat | game | gamedeepen | twoids
 	Line  []string `json:",omitempty"` // twoids: the game moves played between the two runs of iterative deepening
+	Min   int      `json:",omitempty"` // > 0: the table is search.NewMinDepthTranspositionTable(Min), as cmd/morlock builds it
 }
 
 func (cs c11case) String() string {
+	if cs.Min > 0 {
+		c := cs
+		c.Min = 0
+		return fmt.Sprintf("mindepth=%d %s", cs.Min, c.String())
+	}
 	if len(cs.Line) > 0 {
 		return fmt.Sprintf("%s size=%d %s d=%d %v then %v", cs.Kind, cs.Size, cs.Seq, cs.Depth, cs.Root, cs.Line)
 	}
@@ -190,7 +196,11 @@ func runC11(ctx context.Context, cs c11case, vm *valueMemo) (res c11result) {
 	}()
 	rec := &posRec{byHash: map[board.ZobristHash]string{}}
 	s, _ := ttSearch(cs.Kind, rec)
-	tt := &recTT{inner: search.NewTranspositionTable(ctx, cs.Size)}
+	var inner search.TranspositionTable = search.NewTranspositionTable(ctx, cs.Size)
+	if cs.Min > 0 {
+		inner = search.NewMinDepthTranspositionTable(cs.Min)(ctx, cs.Size)
+	}
+	tt := &recTT{inner: inner}
 	add := func(cls, format string, args ...any) {
 		if len(res.problems) < 3 {
 			res.problems = append(res.problems, c11problem{cls, fmt.Sprintf(format, args...)})
@@ -373,7 +383,7 @@ var ttRoots = []searchRoot{
 func checkC11(c *harness.Check) {
 	mustAnchors(c)
 	sizes := []uint64{32, 64, 512, 32768, 1 << 20}
-	c.Rule = fmt.Sprintf("roots with position-determined evaluation and exploration (static material leaf; captures-only quiescence over material) whose trees cannot contain a repetition or fifty-move draw x depth <= D x table sizes %v bytes x sequences of searches sharing ONE table (iterative deepening 1..d then d again; the same root at d,d,d-1,d; successive positions of a game along the PV; iterative deepening 1..d at every second position of a game along the PV, as an engine playing a game does; for the low-branching roots: iterative deepening, then EVERY move and EVERY reply, then iterative deepening again). Oracle per search: score == score without table == reference minimax; PV non-empty and its first move attains the reference value; EVERY ExactBound store (hash mapped back to its position through the Exploration/QuietSearch seams) equals the reference value of that position at that depth, and so does every exact entry the table HOLDS after the search for any position visited (table swept by Read). Capture-rich middlegame roots (shallow, most entries quiescence leaves), where exhaustive minimax is out of reach: there the value of (position, depth) is what the search itself returns for it on a fresh board without a table. plus a single-bit key probe: an entry stored under h is never returned for h with any one of its 64 bits flipped (all table sizes). distinct_nontrivial = distinct (position, depth) pairs of validated exact entries", sizes)
+	c.Rule = fmt.Sprintf("roots with position-determined evaluation and exploration (static material leaf; captures-only quiescence over material) whose trees cannot contain a repetition or fifty-move draw x depth <= D x table sizes %v bytes x sequences of searches sharing ONE table (iterative deepening 1..d then d again; the same root at d,d,d-1,d; successive positions of a game along the PV; iterative deepening 1..d at every second position of a game along the PV, as an engine playing a game does; for the low-branching roots: iterative deepening, then EVERY move and EVERY reply, then iterative deepening again). All of it again with the table behind NewMinDepthTranspositionTable(1|2) (the wrapper cmd/morlock uses) for two sizes. Oracle per search: score == score without table == reference minimax; PV non-empty and its first move attains the reference value; EVERY ExactBound store (hash mapped back to its position through the Exploration/QuietSearch seams) equals the reference value of that position at that depth, and so does every exact entry the table HOLDS after the search for any position visited (table swept by Read). Capture-rich middlegame roots (shallow, most entries quiescence leaves), where exhaustive minimax is out of reach: there the value of (position, depth) is what the search itself returns for it on a fresh board without a table. plus a single-bit key probe: an entry stored under h is never returned for h with any one of its 64 bits flipped (all table sizes). distinct_nontrivial = distinct (position, depth) pairs of validated exact entries", sizes)
 	var cases []c11case
 	for _, r := range ttRoots {
 		max := c.Pick(3, 4)
@@ -420,6 +430,17 @@ func checkC11(c *harness.Check) {
 		}
 	}
 	c.SetExtra("move_reply_pairs_between_two_deepenings", pairs)
+	// the depth-limited wrapper (what cmd/morlock hands to its engine): every case whose table has
+	// 512 bytes or 1 MB again behind NewMinDepthTranspositionTable(1) and (2)
+	for _, cs := range append([]c11case(nil), cases...) {
+		if (cs.Size == 512 || cs.Size == 1<<20) && (cs.Seq != "twoids" || cs.Kind == "quiescence") {
+			for _, min := range []int{1, 2} {
+				w := cs
+				w.Min = min
+				cases = append(cases, w)
+			}
+		}
+	}
 	vm := newValueMemo(int64(c.Pick(3_000_000, 30_000_000)))
 	vmRich := newValueMemo(0)
 	vmRich.impl = true
